@@ -337,9 +337,11 @@ def check_distribution(case):
 
 def check_equidistribution(case):
     b1, b2, n, joint = case["b1"], case["b2"], case["n"], case["joint"]
-    c1, c2 = Av([Perm(b) for b in b1]), Av([Perm(b) for b in b2])
-    m1 = [ref.av([tuple(b) for b in b1], k) for k in range(n + 1)]
-    m2 = [ref.av([tuple(b) for b in b2], k) for k in range(n + 1)]
+    from .c02 import _to_lib, _to_ref
+
+    c1, c2 = Av([_to_lib(b) for b in b1]), Av([_to_lib(b) for b in b2])
+    m1 = [ref.av([_to_ref(b) for b in b1], k) for k in range(n + 1)]
+    m2 = [ref.av([_to_ref(b) for b in b2], k) for k in range(n + 1)]
     perms = sorted({p for lv in m1 + m2 for p in lv})
 
     def equi(tables):
@@ -468,6 +470,11 @@ def equi_cases(draw):
         b2 = [list(p) for p in draw(st.lists(gen.perm_of(L), min_size=1, max_size=2))]
         joint = draw(st.booleans())
         return {"b1": b1, "b2": b2, "n": draw(st.sampled_from([L - 1, L - 1, L])), "joint": joint}
+    if draw(st.integers(0, 5)) == 0:
+        # mesh classes (levels may vanish and come back): a mesh basis against its symmetric image or itself
+        m = draw(gen.mesh_patterns(1, 2, draw(st.sampled_from(["full", "dense", "sparse"]))))
+        other = [list(ref.sym_perm("r", tuple(m[0]))), sorted([len(m[0]) - x, y] for x, y in m[1])] if draw(st.booleans()) else m
+        return {"b1": [m], "b2": [other], "n": draw(st.integers(2, 4)), "joint": draw(st.booleans())}
     b1 = [list(p) for p in draw(st.lists(gen.perms(2, 4), min_size=1, max_size=2))]
     mode = draw(st.sampled_from(["sym", "random", "same"]))
     if mode == "sym":
